@@ -2,6 +2,12 @@
 // Counts every *mutating* file-system call that targets a path under $RIPV_PREFIX and calls
 // _exit(77) immediately BEFORE call number $RIPV_CRASH_AT (0-based) is performed. With
 // $RIPV_TRACE set, appends one line per counted call ("<k> <op> <path>") to that file.
+//
+// Second use (engine S over system calls): a host program that finds `ripv_set_fs_callback` with
+// dlsym installs a callback that is invoked BEFORE every file-system call on a path under
+// $RIPV_PREFIX - the mutating ones above and, only in this mode, the observing ones too (open for
+// reading, read, stat / statx / access). The host parks the calling thread there: every system
+// call of the code under test becomes a scheduling point, independent of source-level hooks.
 #define _GNU_SOURCE
 #include <dlfcn.h>
 #include <errno.h>
@@ -21,6 +27,10 @@ static long crash_at = -1;
 static long counter = 0;
 static int trace_fd = -1;
 static int inited = 0;
+
+static void (*sched_cb)(const char *op, const char *path) = NULL;
+void ripv_set_fs_callback(void (*cb)(const char *, const char *)) { sched_cb = cb; }
+#define SCHED(op, path) do { if (sched_cb) sched_cb((op), (path)); } while (0)
 
 static ssize_t (*real_write)(int, const void *, size_t);
 static int (*real_openat)(int, const char *, int, ...);
@@ -59,7 +69,11 @@ static int fd_under_prefix(int fd, char *out, size_t n) {
     return prefix && strncmp(out, prefix, prefix_len) == 0;
 }
 
+#include <sys/syscall.h>
+static int raw_exists(const char *path) { return syscall(SYS_faccessat, AT_FDCWD, path, F_OK) == 0; }
+
 static void hit(const char *op, const char *path) {
+    SCHED(op, path);
     long k = __sync_fetch_and_add(&counter, 1);
     if (trace_fd >= 0) {
         char line[4400];
@@ -114,10 +128,13 @@ static int mutating_open(int flags) { return (flags & (O_CREAT | O_TRUNC)) != 0;
         mode = va_arg(ap, mode_t);                                            \
         va_end(ap);                                                           \
     }                                                                         \
-    if (mutating_open(flags) && under_prefix(path)) {                         \
-        struct stat st;                                                       \
-        int exists = (stat(path, &st) == 0);                                  \
-        if (!exists || (flags & O_TRUNC)) hit(exists ? name "(trunc)" : name "(create)", path); \
+    if (under_prefix(path)) {                                                 \
+        int counted = 0;                                                      \
+        if (mutating_open(flags)) {                                           \
+            int exists = raw_exists(path);                                    \
+            if (!exists || (flags & O_TRUNC)) { counted = 1; hit(exists ? name "(trunc)" : name "(create)", path); } \
+        }                                                                     \
+        if (!counted) SCHED(name "(existing)", path);                         \
     }
 
 int open(const char *path, int flags, ...) {
@@ -167,14 +184,14 @@ int unlink(const char *p) {
     init();
     static int (*real)(const char *);
     if (!real) real = dlsym(RTLD_NEXT, "unlink");
-    if (under_prefix(p)) { struct stat st; if (lstat(p, &st) == 0) hit("unlink", p); }
+    if (under_prefix(p)) { if (raw_exists(p)) hit("unlink", p); else SCHED("unlink(missing)", p); }
     return real(p);
 }
 int unlinkat(int d, const char *p, int f) {
     init();
     static int (*real)(int, const char *, int);
     if (!real) real = dlsym(RTLD_NEXT, "unlinkat");
-    if (under_prefix(p)) { struct stat st; if (lstat(p, &st) == 0) hit("unlinkat", p); }
+    if (under_prefix(p)) { if (raw_exists(p)) hit("unlinkat", p); else SCHED("unlinkat(missing)", p); }
     return real(d, p, f);
 }
 int rmdir(const char *p) {
@@ -188,14 +205,14 @@ int mkdir(const char *p, mode_t m) {
     init();
     static int (*real)(const char *, mode_t);
     if (!real) real = dlsym(RTLD_NEXT, "mkdir");
-    if (under_prefix(p)) { struct stat st; if (stat(p, &st) != 0) hit("mkdir", p); }
+    if (under_prefix(p)) { if (!raw_exists(p)) hit("mkdir", p); else SCHED("mkdir(existing)", p); }
     return real(p, m);
 }
 int mkdirat(int d, const char *p, mode_t m) {
     init();
     static int (*real)(int, const char *, mode_t);
     if (!real) real = dlsym(RTLD_NEXT, "mkdirat");
-    if (under_prefix(p)) { struct stat st; if (stat(p, &st) != 0) hit("mkdirat", p); }
+    if (under_prefix(p)) { if (!raw_exists(p)) hit("mkdirat", p); else SCHED("mkdirat(existing)", p); }
     return real(d, p, m);
 }
 int ftruncate(int fd, off_t len) {
@@ -227,4 +244,80 @@ int symlink(const char *a, const char *b) {
     if (!real) real = dlsym(RTLD_NEXT, "symlink");
     if (under_prefix(b)) hit("symlink", b);
     return real(a, b);
+}
+
+int linkat(int ad, const char *a, int bd, const char *b, int f) {
+    init();
+    static int (*real)(int, const char *, int, const char *, int);
+    if (!real) real = dlsym(RTLD_NEXT, "linkat");
+    if (under_prefix(b)) hit("linkat", b);
+    return real(ad, a, bd, b, f);
+}
+
+// ---- observing calls: scheduling points only (never counted, never crash points) ----------
+ssize_t read(int fd, void *buf, size_t n) {
+    static ssize_t (*real)(int, void *, size_t);
+    if (!real) real = dlsym(RTLD_NEXT, "read");
+    if (sched_cb && fd > 2) {
+        init();
+        char p[4096];
+        if (fd_under_prefix(fd, p, sizeof p)) sched_cb("read", p);
+    }
+    return real(fd, buf, n);
+}
+#define STAT_POINT(path) do { if (sched_cb && (path) && (path)[0]) { init(); if (under_prefix(path)) sched_cb("stat", (path)); } } while (0)
+struct statx;
+int statx(int dirfd, const char *path, int flags, unsigned int mask, struct statx *buf) {
+    static int (*real)(int, const char *, int, unsigned int, struct statx *);
+    if (!real) real = dlsym(RTLD_NEXT, "statx");
+    STAT_POINT(path);
+    return real(dirfd, path, flags, mask, buf);
+}
+int stat(const char *path, struct stat *st) {
+    static int (*real)(const char *, struct stat *);
+    if (!real) real = dlsym(RTLD_NEXT, "stat");
+    STAT_POINT(path);
+    return real(path, st);
+}
+int lstat(const char *path, struct stat *st) {
+    static int (*real)(const char *, struct stat *);
+    if (!real) real = dlsym(RTLD_NEXT, "lstat");
+    STAT_POINT(path);
+    return real(path, st);
+}
+int stat64(const char *path, struct stat64 *st) {
+    static int (*real)(const char *, struct stat64 *);
+    if (!real) real = dlsym(RTLD_NEXT, "stat64");
+    STAT_POINT(path);
+    return real(path, st);
+}
+int lstat64(const char *path, struct stat64 *st) {
+    static int (*real)(const char *, struct stat64 *);
+    if (!real) real = dlsym(RTLD_NEXT, "lstat64");
+    STAT_POINT(path);
+    return real(path, st);
+}
+int fstatat(int d, const char *path, struct stat *st, int f) {
+    static int (*real)(int, const char *, struct stat *, int);
+    if (!real) real = dlsym(RTLD_NEXT, "fstatat");
+    STAT_POINT(path);
+    return real(d, path, st, f);
+}
+int fstatat64(int d, const char *path, struct stat64 *st, int f) {
+    static int (*real)(int, const char *, struct stat64 *, int);
+    if (!real) real = dlsym(RTLD_NEXT, "fstatat64");
+    STAT_POINT(path);
+    return real(d, path, st, f);
+}
+int access(const char *path, int mode) {
+    static int (*real)(const char *, int);
+    if (!real) real = dlsym(RTLD_NEXT, "access");
+    STAT_POINT(path);
+    return real(path, mode);
+}
+int faccessat(int d, const char *path, int mode, int f) {
+    static int (*real)(int, const char *, int, int);
+    if (!real) real = dlsym(RTLD_NEXT, "faccessat");
+    STAT_POINT(path);
+    return real(d, path, mode, f);
 }
